@@ -52,6 +52,22 @@ func canonMap(m pcommon.Map) string {
 	return "{" + strings.Join(p, ",") + "}"
 }
 
+func canonExemplars(es pmetric.ExemplarSlice) string {
+	p := []string{}
+	for i := 0; i < es.Len(); i++ {
+		e := es.At(i)
+		val := "empty"
+		switch e.ValueType() {
+		case pmetric.ExemplarValueTypeInt:
+			val = fmt.Sprintf("i:%d", e.IntValue())
+		case pmetric.ExemplarValueTypeDouble:
+			val = fmt.Sprintf("d:%016x", math.Float64bits(e.DoubleValue()))
+		}
+		p = append(p, fmt.Sprintf("{ts=%d val=%s span=%x trace=%x filtered=%s}", e.Timestamp(), val, [8]byte(e.SpanID()), [16]byte(e.TraceID()), canonMap(e.FilteredAttributes())))
+	}
+	return "[" + strings.Join(p, ",") + "]"
+}
+
 type point struct {
 	id    string // value of the "vid" attribute (unique per generated point)
 	canon string
@@ -88,7 +104,7 @@ func flatten(md pmetric.Metrics) []point {
 						case pmetric.NumberDataPointValueTypeDouble:
 							val = fmt.Sprintf("d:%016x", math.Float64bits(dp.DoubleValue()))
 						}
-						add(dp.Attributes(), fmt.Sprintf("%s start=%d ts=%d val=%s flags=%d exemplars=%d", extra, dp.StartTimestamp(), dp.Timestamp(), val, dp.Flags(), dp.Exemplars().Len()))
+						add(dp.Attributes(), fmt.Sprintf("%s start=%d ts=%d val=%s flags=%d exemplars=%s", extra, dp.StartTimestamp(), dp.Timestamp(), val, dp.Flags(), canonExemplars(dp.Exemplars())))
 					}
 				}
 				switch m.Type() {
@@ -243,6 +259,27 @@ func genMetricsPadKind(r *rng.R, tag string, n, pad int, asBytes bool) pmetric.M
 						dp.SetIntValue(int64(r.Intn(1000000)) - 500000)
 					} else {
 						dp.SetDoubleValue(float64(r.Intn(1000000))/64.0 + 0.5)
+					}
+					if pad == 0 && r.Intn(4) == 0 {
+						// exemplars with filtered attributes of their own (the converters keep scratch
+						// attribute lists: a point must not end up under its exemplar's)
+						for x := 1 + r.Intn(2); x > 0; x-- {
+							e := dp.Exemplars().AppendEmpty()
+							e.SetTimestamp(pcommon.Timestamp(1700000001000000000 + uint64(r.Intn(100000))))
+							if r.Bool() {
+								e.SetIntValue(int64(r.Intn(1000)))
+							} else {
+								e.SetDoubleValue(float64(r.Intn(1000))/8 + 0.25)
+							}
+							e.SetSpanID(pcommon.SpanID([8]byte{1, 2, 3, 4, 5, 6, 7, byte(1 + r.Intn(200))}))
+							e.SetTraceID(pcommon.TraceID([16]byte{9, 8, 7, 6, 5, 4, 3, 2, 1, 0, 1, 2, 3, 4, 5, byte(1 + r.Intn(200))}))
+							if r.Intn(3) != 0 {
+								e.FilteredAttributes().PutStr("user", fmt.Sprintf("u%d", r.Intn(5)))
+							}
+							if r.Intn(3) == 0 {
+								e.FilteredAttributes().PutInt("shard", int64(r.Intn(9)))
+							}
+						}
 					}
 				}
 			}
